@@ -239,6 +239,10 @@ func (lp *linProver) linOf(v ssa.Value, d int) lin {
 		if b, ok := x.Call.Value.(*ssa.Builtin); ok && b.Name() == "len" {
 			return lp.lenLin(x.Call.Args[0], d+1)
 		}
+	case *ssa.UnOp:
+		if x.Op == token.SUB {
+			return lp.linOf(x.X, d+1).scale(-1)
+		}
 	case *ssa.BinOp:
 		switch x.Op {
 		case token.ADD:
